@@ -3,4 +3,4 @@
 From Coq Require Import Extraction ExtrOcamlBasic.
 From Matreex Require Import Model.Decode Model.KCases.
 Extraction Language OCaml.
-Extraction "model.ml" step_wire empty_pool cfg64 nrows ncols kcase.
+Extraction "model.ml" step_wire empty_pool cfg64 nrows ncols kcase kcase_itermut_zst.
